@@ -20,14 +20,15 @@ EXTENDS Integers, Sequences, FiniteSets, TLC, Json
 
 TraceLog == ndJsonDeserialize("trace.ndjson")
 
-VARIABLES l,       \* next line
+VARIABLES base,    \* origin of the current sync session (from the Reset events)
+          l,       \* next line
           cfg,     \* the chain of the current trace: [n, body, w]
           sched,   \* ids of the headers the queue accepted for download
           nd,      \* number of results handed out
           dset,    \* ids of the headers handed out
           viol,    \* set of <<clause, discriminator set, line>>
           fired    \* per clause: how often its antecedent held
-vars == <<l, cfg, sched, nd, dset, viol, fired>>
+vars == <<base, l, cfg, sched, nd, dset, viol, fired>>
 
 Clauses == {"InOrderGapFree", "EachOnce", "BodyMatchesHeader", "WorkNeverLost", "NoDoubleAssign", "CompletesWithHonestPeer", "NoPanic"}
 
@@ -39,7 +40,7 @@ InFlight(pd, h) == LET F[ps \in SUBSET DOMAIN pd] ==
 \* one batch of results r = sequence of <<number, body id, txroot matches, header is one of the chain's, header id, parent hash
 \* is the hash of the header handed out just before (the origin for the first)>>, handed out when `have` results were out
 \* already.  Each operator returns the set of discriminators of the failures.
-OrderFails(r, have) == { IF r[i][1] > have + i THEN "gap" ELSE "back" : i \in { k \in DOMAIN r : r[k][1] # have + k } }
+OrderFails(r, have) == { IF r[i][1] > base + have + i THEN "gap" ELSE "back" : i \in { k \in DOMAIN r : r[k][1] # base + have + k } }
                        \cup { "link" : i \in { k \in DOMAIN r : ~r[k][6] } }
 OnceFails(r, seen) == { "again" : i \in { k \in DOMAIN r : r[k][5] \in seen \/ \E m \in DOMAIN r : m # k /\ r[m][5] = r[k][5] } }
 BodyFails(r) == { IF ~r[i][4] THEN "header" ELSE IF ~r[i][3] THEN "root" ELSE "body"
@@ -52,7 +53,7 @@ DoubleSet(o) == { h \in DOMAIN cfg.body : InFlight(o.pd, h) > 1 }
 
 EvDisc(e) == {e.ev} \cup (IF e.ev = "Deliver" THEN {e.args.v} ELSE {})
 
-Init == l = 1 /\ cfg = [n |-> 0, body |-> <<>>, w |-> 0] /\ sched = {} /\ nd = 0 /\ dset = {} /\ viol = {}
+Init == base = 0 /\ l = 1 /\ cfg = [n |-> 0, body |-> <<>>, w |-> 0] /\ sched = {} /\ nd = 0 /\ dset = {} /\ viol = {}
         /\ fired = [c \in Clauses |-> 0]
 
 \* a signature (clause, discriminator) is reported once, with the first line it failed at: the set stays small however
@@ -79,16 +80,21 @@ Step ==
    /\ l' = l + 1
    /\ LET e == TraceLog[l] IN
       CASE e.ev = "reset" ->
-              /\ cfg' = [n |-> 0, body |-> <<>>, w |-> 0] /\ sched' = {} /\ nd' = 0 /\ dset' = {}
+              /\ cfg' = [n |-> 0, body |-> <<>>, w |-> 0] /\ sched' = {} /\ nd' = 0 /\ dset' = {} /\ base' = 0
               /\ UNCHANGED <<viol, fired>>
-        [] e.ev = "abort" -> UNCHANGED <<cfg, sched, nd, dset, viol, fired>>
+        [] e.ev = "Reset" ->
+              \* a new session on the same queue: every clause is stated per session
+              /\ base' = e.args.o /\ sched' = {} /\ nd' = 0 /\ dset' = {}
+              /\ viol' = AddViol(IF "panic" \in DOMAIN e THEN { <<"NoPanic", {"Reset"}, l>> } ELSE {})
+              /\ UNCHANGED <<cfg, fired>>
+        [] e.ev = "abort" -> UNCHANGED <<base, cfg, sched, nd, dset, viol, fired>>
         [] e.ev = "Init" ->
               /\ cfg' = [n |-> e.args.n, body |-> e.args.body, w |-> e.args.w]
-              /\ UNCHANGED <<sched, nd, dset, viol, fired>>
+              /\ UNCHANGED <<base, sched, nd, dset, viol, fired>>
         [] "panic" \in DOMAIN e ->
               /\ viol' = AddViol({ <<"NoPanic", EvDisc(e), l>> })
               /\ fired' = Bump({"NoPanic"})
-              /\ UNCHANGED <<cfg, sched, nd, dset>>
+              /\ UNCHANGED <<base, cfg, sched, nd, dset>>
         [] e.ev = "Complete" /\ ~("panic" \in DOMAIN e) ->
               \* bounded liveness: timeouts fired and an honest peer kept answering; everything must have come out,
               \* in order, once, with the right bodies
@@ -97,20 +103,20 @@ Step ==
                   fl == Flatten(bs, 1) IN
               /\ nd' = f.have
               /\ dset' = dset \cup AllNums(bs)
-              /\ sched' = sched \cup (1..cfg.n)
+              /\ sched' = sched \cup ((base + 1)..cfg.n)
               /\ viol' = AddViol(f.v
                            \cup { <<"EachOnce", {d}, l>> : d \in OnceFails(fl, dset) }
-                           \cup (IF f.have = cfg.n /\ (1..cfg.n) \subseteq dset' THEN {} ELSE { <<"CompletesWithHonestPeer", {"incomplete"}, l>> })
+                           \cup (IF f.have = cfg.n - base /\ ((base + 1)..cfg.n) \subseteq dset' THEN {} ELSE { <<"CompletesWithHonestPeer", {"incomplete"}, l>> })
                            \cup { <<"WorkNeverLost", {"Complete"}, l>> : h \in LostSet(e.obs, sched', dset') })
               /\ fired' = Bump({"CompletesWithHonestPeer"} \cup (IF Len(fl) > 0 THEN {"InOrderGapFree", "EachOnce", "BodyMatchesHeader"} ELSE {}))
-              /\ UNCHANGED cfg
+              /\ UNCHANGED <<base, cfg>>
         [] e.ev = "LoopEnd" ->
               \* the real fetchBodies/fetchParts loop returned: with an honest peer connected it must not have given up, and
               \* the consumer must have received the whole range
-              /\ viol' = AddViol(IF e.args.honest /\ (e.res.err # "nil" \/ nd # cfg.n \/ ~((1..cfg.n) \subseteq dset))
+              /\ viol' = AddViol(IF e.args.honest /\ (e.res.err # "nil" \/ nd # cfg.n - base \/ ~(((base + 1)..cfg.n) \subseteq dset))
                                  THEN { <<"CompletesWithHonestPeer", {"loop", e.res.err}, l>> } ELSE {})
               /\ fired' = Bump(IF e.args.honest THEN {"CompletesWithHonestPeer"} ELSE {})
-              /\ UNCHANGED <<cfg, sched, nd, dset>>
+              /\ UNCHANGED <<base, cfg, sched, nd, dset>>
         [] OTHER ->
               LET r   == IF e.ev \in {"Results", "LoopResults"} THEN e.res.r ELSE <<>>
                   hasObs == "obs" \in DOMAIN e
@@ -128,7 +134,7 @@ Step ==
               /\ fired' = Bump((IF Len(r) > 0 THEN {"InOrderGapFree", "EachOnce", "BodyMatchesHeader"} ELSE {})
                                \cup (IF hasObs /\ sc \ ds # {} THEN {"WorkNeverLost"} ELSE {})
                                \cup (IF hasObs /\ \E p \in DOMAIN e.obs.pd : Len(e.obs.pd[p]) > 0 THEN {"NoDoubleAssign"} ELSE {}))
-              /\ UNCHANGED cfg
+              /\ UNCHANGED <<base, cfg>>
 
 Spec == Init /\ [][Step]_vars
 
